@@ -64,7 +64,8 @@ def build_harness():
     with lock("cargo"):
         shutil.copyfile(os.path.join(REPO, "Cargo.lock"), os.path.join(HARNESS, "Cargo.lock"))
         t = time.time()
-        p = sh(["cargo", "build", "--offline", "-q"], cwd=HARNESS, timeout=1500)
+        # the target directory follows this checkout (harness/.cargo/config.toml names /verif for plain `cargo` use)
+        p = sh(["cargo", "build", "--offline", "-q"], cwd=HARNESS, timeout=1500, env=dict(ENV, CARGO_TARGET_DIR=os.path.join(BUILD, "target")))
         if p.returncode != 0:
             raise MachineryError("harness build failed (does /repo still compile with "
                                  f"--cfg {GUARD}?)\n" + p.stderr[-4000:])
